@@ -182,6 +182,8 @@ impl ConnectionState {
 
                 for (_, mut slot) in inner.chan_slots.drain() {
                     send(&slot.tx, Err(make_err()))?;
+                    #[cfg(amiquip_verif)]
+                    super::verif_probe::sched_point(2);
                     for (_, tx) in slot.consumers.drain() {
                         send(&tx, ConsumerMessage::ServerClosedConnection(make_err()))?;
                     }
@@ -200,6 +202,8 @@ impl ConnectionState {
 
                 for (_, mut slot) in inner.chan_slots.drain() {
                     send(&slot.tx, Err(Error::ClientClosedConnection))?;
+                    #[cfg(amiquip_verif)]
+                    super::verif_probe::sched_point(2);
                     for (_, tx) in slot.consumers.drain() {
                         send(&tx, ConsumerMessage::ClientClosedConnection)?;
                     }
@@ -237,6 +241,8 @@ impl ConnectionState {
                     message: close.reply_text.clone(),
                 };
                 send(&slot.tx, Err(make_err()))?;
+                #[cfg(amiquip_verif)]
+                super::verif_probe::sched_point(2);
                 for (_, tx) in slot.consumers.drain() {
                     send(&tx, ConsumerMessage::ServerClosedChannel(make_err()))?;
                 }
